@@ -27,7 +27,7 @@ func init() {
 		Replay: replay,
 		Rule: "cases are JSON texts from five duplicate-free families (number literal x placement x terminator; string item sequences x placement; every single \\uXXXX escape; " +
 			"gens.Trees rendered compact and spaced; duplicate-key objects), case index modulo shard count; each text is executed by oj.Parser (whole, 1-byte reader), " +
-			"oj.Tokenize, gen.Parser (whole, 1-byte reader) and sen.Parser and compared with the reference, never with another front-end; " +
+			"oj.Tokenizer (whole, 1-byte reader), gen.Parser (whole, 1-byte reader), sen.Parser (whole, 1-byte reader) and sen.Tokenizer (whole, 1-byte reader) and compared with the reference, never with another front-end; " +
 			"distinct_nontrivial = texts containing a number literal of more than one character, a string item other than a plain ASCII character, or a container with at least one element",
 		Assumptions: []string{
 			"strconv.ParseFloat returns the float64 nearest to a decimal literal (checked exactly with big.Rat on a literal list in valref's unit tests)",
@@ -45,8 +45,8 @@ func init() {
 			}
 			return fmt.Sprintf("numbers: 2 signs x %d integer parts (<=21 digits) x %d fractions (<=23 digits, 0-21 leading zeros) x %d exponent forms = %d literals, each in %d placement/terminator contexts; "+
 				"strings: all sequences of <=%d items over %d items in %d placements, plus all 65536 \\uXXXX escapes (lower%s hex) and 9 boundary surrogate pairs; "+
-				"structure: every gens tree with <=%d nodes (compact and spaced) and duplicate-key objects with 2-4 members over %d keys; 6 front-end executions per text",
-				ni, nf, ne, 2*ni*nf*ne, len(numCtxs), sl, len(items), len(strPlaces), map[bool]string{true: " and sampled upper", false: " and upper"}[q], tn, map[bool]int{true: 2, false: 3}[q])
+				"structure: every gens tree with <=%d nodes (compact and spaced) and duplicate-key objects with 2-4 members over %d keys; %d front-end executions per text",
+				ni, nf, ne, 2*ni*nf*ne, len(numCtxs), sl, len(items), len(strPlaces), map[bool]string{true: " and sampled upper", false: " and upper"}[q], tn, map[bool]int{true: 2, false: 3}[q], len(frontEnds))
 		},
 	})
 }
